@@ -220,3 +220,40 @@ func TestVerifBounded_C15_Reconcile(t *testing.T) {
 		t.Fatalf("%d mismatches", fails)
 	}
 }
+
+// Deletion boundary with sub-second clocks: the descriptor records the second in which a partition became inactive;
+// whatever the instant inside that second, the partition must not be deleted before the delay has fully elapsed.
+func TestVerifBounded_C15_DeletionBoundary(t *testing.T) {
+	ctx := context.Background()
+	cases, fails := 0, 0
+	del := 10 * time.Second
+	base := time.Unix(1_700_000_000, 0)
+	for k := -8; k <= 12; k++ {
+		cases++
+		now := base.Add(del).Add(time.Duration(k) * 250 * time.Millisecond)
+		store, closer := consul.NewInMemoryClient(GetPartitionRingCodec(), log.NewNopLogger(), nil)
+		cfg := PartitionInstanceLifecyclerConfig{PartitionID: 1, InstanceID: "self", WaitOwnersCountOnPending: 1, WaitOwnersDurationOnPending: time.Second, DeleteInactivePartitionAfterDuration: del, PollingInterval: time.Hour}
+		l := NewPartitionInstanceLifecycler(cfg, "test", "ring", store, log.NewNopLogger(), nil)
+		desc := NewPartitionRingDesc()
+		desc.AddPartition(1, PartitionActive, base.Add(-time.Hour))
+		desc.AddPartition(2, PartitionInactive, base.Add(900*time.Millisecond)) // recorded as second `base`
+		_ = store.CAS(ctx, "ring", func(in interface{}) (interface{}, bool, error) { return desc, true, nil })
+		l.reconcileOtherPartitions(ctx, now)
+		v, _ := store.Get(ctx, "ring")
+		_, exists := GetOrCreatePartitionRingDesc(v).Partitions[2]
+		_ = closer.Close()
+		// the partition may have become inactive at any instant of the recorded second: deleting is legitimate only
+		// once the delay has elapsed for all of them
+		elapsedForAll := !now.Add(-del).Before(base.Add(time.Second))
+		if !exists && !elapsedForAll {
+			fails++
+			if fails <= 5 {
+				fmt.Printf("BOUNDED-VIOLATION case=c15-delete-early:offset=%dms partition inactive since second %d (+0.9 s) deleted at %v: inactive for %v only, the delay is %v\n", k*250, base.Unix(), now.Sub(base), now.Sub(base.Add(900*time.Millisecond)), del)
+			}
+		}
+	}
+	fmt.Printf("BOUNDED-CASES name=C15_DeletionBoundary n=%d distinct=%d bound=ownerless inactive partition, reconcile ticks at delay-2 s .. delay+3 s in steps of 250 ms\n", cases, cases)
+	if fails > 0 {
+		t.Fatalf("%d mismatches", fails)
+	}
+}
